@@ -163,7 +163,7 @@ def build_harness(name, src, extra=(), compiler='g++', flags=None):
     return True, out, exe
 
 
-def run_blocks(exe, files, timeout=120, env=None):
+def run_blocks(exe, files, timeout=60, env=None, single_timeout=15):
     """run exe on the script files; returns dict file -> (list of output lines, stderr-ish tail or None).
     Falls back to one process per file when the batch dies (sanitizer abort)."""
     res = {}
@@ -200,7 +200,7 @@ def run_blocks(exe, files, timeout=120, env=None):
         else:
             for f in chunk:
                 try:
-                    p = subprocess.run([exe, f], stdout=subprocess.PIPE, stderr=subprocess.PIPE, timeout=timeout, env=e,
+                    p = subprocess.run([exe, f], stdout=subprocess.PIPE, stderr=subprocess.PIPE, timeout=single_timeout, env=e,
                                        text=True, errors='replace')
                     rc1, o1, err1 = p.returncode, p.stdout, p.stderr
                 except subprocess.TimeoutExpired as t:
@@ -208,6 +208,8 @@ def run_blocks(exe, files, timeout=120, env=None):
                     rc1, err1 = 124, 'TIMEOUT (hang)'
                 b = parse(o1)
                 lines = b.get(f, [])
+                if rc1 == 124:
+                    lines = lines[:2000]
                 if rc1 != 0:
                     lines = lines + [f'crash rc={rc1}']
                     res[f] = (lines, err1[-3000:])
